@@ -33,6 +33,6 @@ Definition step_agrees (names : list bytes) (probes : probe_set) (pre : store) (
   end.
 
 Definition agrees (c : case) : bool :=
-  GenLayerShared.trait_dispatch_shape_ok && GenLayerShared.trait_keep_rereads &&
+  GenLayerShared.trait_dispatch_shape_ok && GenLayerShared.trait_keep_rereads && GenLayerShared.execd_copy_shape_ok &&
   (fix go (pre : store) (l : list obs_step) : bool :=
      match l with [] => true | s :: r => step_agrees (k_names c) (k_probes c) pre s && go (step_post pre s) r end) [] (k_steps c).
